@@ -165,6 +165,24 @@ Theorem exn_unrepaired_refuted_dies :
 Proof. exact ExnProofs.unrepaired_refuted_dies. Qed.
 Print Assumptions exn_unrepaired_refuted_dies.
 
+(* Second repaired defect: the pinned exception_catch walked the filter with foreach, whose cursor
+   is the current element.  On filter SETS that walk decides exactly [matches] (so the repair changes
+   nothing there); on a filter naming an object twice it never finishes. *)
+Theorem exn_foreach_walk_agrees_on_sets : forall fs k fuel,
+  NoDup fs -> fs <> [] -> length fs + 1 <= fuel ->
+  foreach_matches fuel fs (hd_error fs) k = Some (matches fs k).
+Proof. exact ExnProofs.foreach_agrees_on_sets. Qed.
+Print Assumptions exn_foreach_walk_agrees_on_sets.
+
+Example exn_foreach_walk_agrees_on_sets_nonvacuous :
+  NoDup [2; 0; 3] /\ [2; 0; 3] <> [] /\ length [2; 0; 3] + 1 <= 4.
+Proof. split; [repeat constructor; cbn; intuition discriminate | split; [discriminate | apply le_n]]. Qed.
+
+Theorem exn_foreach_walk_refuted : forall fuel,
+  foreach_matches fuel [0; 0] (hd_error [0; 0]) 1 = None.
+Proof. exact ExnProofs.foreach_diverges_on_duplicate. Qed.
+Print Assumptions exn_foreach_walk_refuted.
+
 (* Ties to the source text (Generated.v is rewritten from the working tree on every check). *)
 Theorem exn_repair_in_source : clear_active_on_catch = true.
 Proof. exact ExnProofs.clear_active_generated. Qed.
